@@ -38,7 +38,8 @@ theorem decode_final {v m : Nat} (hv : v < 40) (hm : m < 8) (l : ECL) (S data : 
         (T.dataCodewords l v)) 0) :
     ∃ r, Decode.decode ⟨(finalMatrix v S l m).n, (finalMatrix v S l m).cells⟩ (Regions.regionMap v) = .ok r ∧
       r.ecl = l ∧ r.mask = m ∧ r.version = v ∧
-      r.parsed = Bitstream.parse v ((data.toList.take (T.dataCodewords l v)).flatMap (Bitstream.toBits 8)) := by
+      r.parsed = Bitstream.parse v ((data.toList.take (T.dataCodewords l v)).flatMap (Bitstream.toBits 8)) ∧
+      r.dataCodewords = data.toList.take (T.dataCodewords l v) := by
   have hmiss : T.missingBits v < 8 := by
     have := all_range remainderOk_true v hv
     simp only [beq_iff_eq] at this
@@ -74,7 +75,7 @@ theorem decode_final {v m : Nat} (hv : v < 40) (hm : m < 8) (l : ECL) (S data : 
       simp only [List.getElem_map, List.getElem_range, List.getElem_take, Array.getElem_toList]
       simp [Array.getD_eq_getD_getElem?, Array.getElem?_eq_getElem (show i < data.size by omega)]
   rw [hdi, htake]
-  exact ⟨_, rfl, rfl, rfl, rfl, rfl⟩
+  exact ⟨_, rfl, rfl, rfl, rfl, rfl, rfl⟩
 
 /-- **C01**: every symbol the (model of the) builder returns decodes, by the ISO reference decoding
 procedure, to exactly the input bytes in the reported mode, with the reported level, mask, version -/
@@ -82,7 +83,8 @@ theorem roundtrip (inp : List Nat) (o : Opts) (b : Built) (hb : Spec.IsBytes inp
     (halpha : Spec.alphabetOK (o.mode.getD (bestEncoding inp)) inp = true)
     (h : (build inp o).val = .ok b) :
     ∃ r, Decode.decode ⟨b.qr.n, b.qr.cells⟩ (Regions.regionMap b.version) = .ok r ∧
-      r.parsed = some ⟨b.mode, inp⟩ ∧ r.ecl = b.ecl ∧ r.mask = b.mask ∧ r.version = b.version := by
+      r.parsed = some ⟨b.mode, inp⟩ ∧ r.ecl = b.ecl ∧ r.mask = b.mask ∧ r.version = b.version ∧
+      r.dataCodewords = Bitstream.codewords b.mode b.version b.ecl inp := by
   obtain ⟨hmode, hecl, hver, hmask, hqr⟩ := build_unfold inp o ho b h
   obtain ⟨hv40, hfit⟩ := Props.C05.C05_no_overflow _ _ _ o.version b.version ho.1 hver
   have hfits : Spec.fits b.mode b.ecl b.version inp.length = true := by simpa [Spec.fits] using hfit
@@ -92,12 +94,12 @@ theorem roundtrip (inp : List Nat) (o : Opts) (b : Built) (hb : Spec.IsBytes inp
   have hlay := Props.C02.C02_layout hv40 b.ecl
   have hd : T.dataCodewords b.ecl b.version ≤ (encode inp b.ecl b.mode b.version).val.data.size := by
     rw [hesz, hlay.2.2.2.2.2.2]; omega
-  obtain ⟨r, hr, h1, h2, h3, h4⟩ := decode_final hv40 hmask b.ecl
+  obtain ⟨r, hr, h1, h2, h3, h4, h5⟩ := decode_final hv40 hmask b.ecl
     (structureBuf (encode inp b.ecl b.mode b.version).val.data b.ecl b.version).val
     (encode inp b.ecl b.mode b.version).val.data hinv.bytes hd
     (fun k hk => Deinterleave.structure_data hv40 b.ecl _ hd k hk)
   rw [← hqr] at hr
-  refine ⟨r, hr, ?_, h1, h2, h3⟩
+  refine ⟨r, hr, ?_, h1, h2, h3, by rw [h5, hcw]⟩
   rw [h4, hcw]
   exact ParseRoundTrip.parse_codewords b.mode b.version b.ecl inp hv40 hb halpha hfits
 end FastQr.Proofs.RoundTrip
